@@ -1,10 +1,12 @@
 package svcworld
 
 import (
+	"context"
 	"fmt"
 	"reflect"
 
 	"github.com/google/uuid"
+	"github.com/nspcc-dev/neofs-node/pkg/network/peerauth"
 	"github.com/nspcc-dev/neofs-sdk-go/bearer"
 	"github.com/nspcc-dev/neofs-sdk-go/container/acl"
 	cid "github.com/nspcc-dev/neofs-sdk-go/container/id"
@@ -19,6 +21,7 @@ import (
 	protosession "github.com/nspcc-dev/neofs-sdk-go/proto/session"
 	"github.com/nspcc-dev/neofs-sdk-go/session"
 	"github.com/nspcc-dev/neofs-sdk-go/version"
+	"google.golang.org/grpc/peer"
 )
 
 func init() {
@@ -31,8 +34,8 @@ func init() {
 // ObjectServiceIface is the reflected gRPC server interface of the object service.
 var ObjectServiceIface = reflect.TypeOf((*protoobject.ObjectServiceServer)(nil)).Elem()
 
-// AllowAllACL returns an extendable basic ACL that allows every operation to owner and others and
-// bearer rules for every operation.
+// AllowAllACL returns an extendable basic ACL that allows every operation to owner, others and
+// container nodes and bearer rules for every operation.
 func AllowAllACL() acl.Basic {
 	var b acl.Basic
 	for op := acl.OpObjectGet; op <= acl.OpObjectHash; op++ {
@@ -40,7 +43,17 @@ func AllowAllACL() acl.Basic {
 		b.AllowOp(op, acl.RoleOthers)
 		b.AllowBearerRules(op)
 	}
+	// the replication operations are always open to container nodes; these two are configurable
+	b.AllowOp(acl.OpObjectDelete, acl.RoleContainer)
+	b.AllowOp(acl.OpObjectRange, acl.RoleContainer)
 	return b
+}
+
+// PeerContext returns a context as the node's gRPC transport produces for a connection whose peer
+// was authenticated by mutual TLS with the labelled key (peerauth.AuthInfo). Unsigned requests with
+// TTL 1 are accepted from such peers.
+func PeerContext(label string) context.Context {
+	return peer.NewContext(context.Background(), &peer.Peer{AuthInfo: peerauth.AuthInfo{PublicKey: Key(label).PublicKey()}})
 }
 
 // OwnerOnlyACL allows every operation to the owner only (others denied by the basic ACL).
